@@ -63,11 +63,14 @@ pub struct WalkCfg {
     pub custom_ignore: bool,
     /// parents(true): ignore files of the ancestors of a root apply below it.
     pub parents: bool,
+    /// skip_stdout(true) while standard output is this file of the tree: entries that are that
+    /// file (by any name, also through a followed link) are not reported, roots excepted.
+    pub skip_stdout: Option<String>,
 }
 
 impl Default for WalkCfg {
     fn default() -> WalkCfg {
-        WalkCfg { threads: 2, max_depth: None, max_filesize: None, follow_links: false, same_file_system: false, filter_char: None, ignore_files: false, hidden: false, override_glob: None, type_x: false, sort_names: false, custom_ignore: false, parents: false }
+        WalkCfg { threads: 2, max_depth: None, max_filesize: None, follow_links: false, same_file_system: false, filter_char: None, ignore_files: false, hidden: false, override_glob: None, type_x: false, sort_names: false, custom_ignore: false, parents: false, skip_stdout: None }
     }
 }
 
@@ -77,7 +80,7 @@ impl WalkCfg {
             "threads": self.threads, "max_depth": self.max_depth, "max_filesize": self.max_filesize,
             "follow_links": self.follow_links, "same_file_system": self.same_file_system,
             "filter_char": self.filter_char.map(|c| c.to_string()), "ignore_files": self.ignore_files, "hidden": self.hidden,
-            "override_glob": self.override_glob, "type_x": self.type_x, "sort_names": self.sort_names, "custom_ignore": self.custom_ignore, "parents": self.parents,
+            "override_glob": self.override_glob, "type_x": self.type_x, "sort_names": self.sort_names, "custom_ignore": self.custom_ignore, "parents": self.parents, "skip_stdout": self.skip_stdout,
         })
     }
     pub fn from_json(v: &Value) -> WalkCfg {
@@ -95,6 +98,7 @@ impl WalkCfg {
             sort_names: v["sort_names"].as_bool().unwrap_or(false),
             custom_ignore: v["custom_ignore"].as_bool().unwrap_or(false),
             parents: v["parents"].as_bool().unwrap_or(false),
+            skip_stdout: v["skip_stdout"].as_str().map(String::from),
         }
     }
 }
@@ -532,6 +536,13 @@ fn list(base: &Path, p: &Path, depth: usize, cfg: &WalkCfg, root_dev: Option<u64
         return;
     }
     if depth > 0 {
+        if let Some(so) = &cfg.skip_stdout {
+            if let Ok(t) = std::fs::metadata(base.join(so)) {
+                if !md.is_dir() && t.dev() == md.dev() && t.ino() == md.ino() {
+                    return;
+                }
+            }
+        }
         if let Some(ch) = cfg.filter_char {
             if p.file_name().unwrap().to_string_lossy().contains(ch) {
                 return;
